@@ -1,6 +1,7 @@
 SPECIFICATION TSpec
 CONSTANTS
   W = 65536
+  Anns = {"both"}
   Sizes = {0}
   MaxFaults = 99
   MaxInject = 99
